@@ -1,23 +1,10 @@
-use vcore::front::{self, Project};
 fn main() {
-  let seed0: u64 = std::env::args().nth(1).and_then(|s| s.parse().ok()).unwrap_or(1);
   let mut bad = 0;
-  for seed in seed0..seed0 + 200 {
+  for seed in 1..300u64 {
     let mut rng = vcore::rng::Rng::new(seed);
-    let t = vcore::exprgen::order_zoo(&mut rng);
-    if seed == seed0 { println!("{t}"); }
-    let p = Project::single("Zoo", &t).with_std();
-    let mut heap = samlang_heap::Heap::new();
-    let c = front::check_project(&mut heap, &p);
-    if c.errors.has_errors() {
-      bad += 1;
-      if bad <= 2 {
-        println!("{t}");
-        for e in c.errors.errors().iter().take(4) {
-          println!("// {}: {}", e.location.pretty_print(&heap), e.to_ide_format(&heap, &c.handles).ide_error);
-        }
-      }
-    }
+    let t = vcore::lsphist::zoo(&mut rng, "AlphaWithAVeryLongSuffix", "Beta", "BetaWithAVeryLongSuffix", seed % 2 == 0);
+    let p = vcore::fmtcheck::parse(&t).unwrap();
+    if !p.syntax_errors.is_empty() { bad += 1; if bad < 3 { println!("{t}\n// {:?}", p.syntax_errors); } }
   }
-  println!("rejected {bad} of 200");
+  println!("zoo modules with syntax errors: {bad} of 299");
 }
